@@ -215,11 +215,21 @@ func funcKey(fn *ssa.Function) string {
 			name = rt.String()
 		}
 		if ptr {
-			return fmt.Sprintf("%s.(*%s).%s", pn, name, fn.Name())
+			return fmt.Sprintf("%s.(*%s).%s", pn, name, baseName(fn))
 		}
-		return fmt.Sprintf("%s.%s.%s", pn, name, fn.Name())
+		return fmt.Sprintf("%s.%s.%s", pn, name, baseName(fn))
 	}
-	return pn + "." + fn.Name()
+	return pn + "." + baseName(fn)
+}
+
+// baseName is the function's name without the type-argument suffix of a generic instantiation
+// (slices.Contains[[]uint16 uint16] -> Contains): one contract serves every instantiation.
+func baseName(fn *ssa.Function) string {
+	n := fn.Name()
+	if i := strings.Index(n, "["); i > 0 {
+		return n[:i]
+	}
+	return n
 }
 
 func (g *Global) tagOf(t types.Type) int {
